@@ -217,6 +217,15 @@ def strategy_(draw, tier):
     mk = lambda fn, **kw: {'k': 'B', 'bt': 'Config', 'fn': {'kind': 'sym', 'name': fn}, 'pos': [], 'kw': kw, 'edits': []}
     s_node = mk('things:f2', x={'leaf': 'uidS'}, y={'leaf': draw(st.integers(0, 9))})
     s_node['tags'] = [['y', draw(st.sampled_from(['TagA', 'TagX']))]]
+    inner = draw(st.sampled_from(['none', 'B', 'list', 'dict']))
+    if inner != 'none':
+      # the shared node itself holds a Buildable / a list / a dict
+      nodes.append(mk('things:Base', x={'leaf': 'uidC'}))
+      if inner == 'list':
+        nodes.append({'k': 'list', 'items': [len(nodes) - 1, {'leaf': 1}]})
+      elif inner == 'dict':
+        nodes.append({'k': 'dict', 'keys': ['k'], 'items': [len(nodes) - 1]})
+      s_node['kw']['child'] = len(nodes) - 1
     nodes.append(s_node)
     si = len(nodes) - 1
     nodes.append(mk('things:f2', x={'leaf': 'uidL'}, child=si))
